@@ -150,9 +150,15 @@ var pristineCache = map[string]pristinePair{}
 // PristineEvals counts oracle executions (reported in evidence).
 var PristineEvals int64
 
+// curDefaults are the package defaults of the scenario being run (part of every call's descriptor).
+var curDefaults struct {
+	limit  int64
+	negOff bool
+}
+
 func descKey(target string, c *Call, a, b, patchText []byte) string {
 	var sb strings.Builder
-	fmt.Fprintf(&sb, "%s|%d|%v|%q|%d|%d|%d|", target, c.Fn, c.Opts, c.Indent, len(a), len(b), len(patchText))
+	fmt.Fprintf(&sb, "%s|%d|%v|%q|%d|%d|%d|%d|%v|", target, c.Fn, c.Opts, c.Indent, len(a), len(b), len(patchText), curDefaults.limit, curDefaults.negOff)
 	sb.Write(a)
 	sb.WriteByte(0)
 	sb.Write(b)
@@ -172,6 +178,7 @@ func pristineOnce(api API, c *Call, a, b, patchText []byte, mapPolicy int, budge
 	// anything an edit may add) is put back to its initial value, so the oracle's answer is a
 	// function of the call descriptor and not of what this worker happened to run before
 	api.Reset()
+	api.SetDefaults(curDefaults.limit, curDefaults.negOff)
 	PristineEvals++
 	cp := func(x []byte) []byte {
 		if x == nil {
@@ -466,7 +473,15 @@ func (rn *runner) execCalls(ts *taskState, calls []Call, want []pristinePair) {
 					alias = true
 				}
 			}
-			if !alias {
+			switch {
+			case alias:
+			case sc.Cfg.ScribbleResults:
+				full := o.ret[:cap(o.ret)]
+				for i := range full {
+					full[i] = '#'
+				}
+				ts.probes["results_scribbled"]++
+			default:
 				ts.kept = append(ts.kept, retained{id: c.ID, fn: c.Fn, ret: o.ret, snap: o.Out})
 			}
 		}
@@ -561,6 +576,7 @@ func Run(sc *Scenario) *RunResult {
 	api := APIFor(sc.Target)
 	res := &RunResult{Probes: map[string]int64{}}
 	rn := &runner{api: api, sc: sc, res: res}
+	curDefaults.limit, curDefaults.negOff = sc.Cfg.PkgLimit, sc.Cfg.PkgNegOff
 
 	// 1. pristine outcomes, before the world under test exists
 	nslots := sc.NSlots
@@ -626,6 +642,7 @@ func Run(sc *Scenario) *RunResult {
 	raceBefore := simrt.RaceErrors()
 	simrt.Install(w)
 	api.Reset()
+	api.SetDefaults(sc.Cfg.PkgLimit, sc.Cfg.PkgNegOff)
 	if sc.Cfg.Warm {
 		rn.warmup()
 	}
